@@ -536,14 +536,16 @@ impl Driver for MultiDriver {
                     "same_transition_under_every_hasher",
                     format!("{:?}/{}", cfg.kind, crate::oracle::op_name(&op)),
                     format!(
-                        "{:?} returns {:?} and leaves {} under {:?}{}, but returns {:?} and leaves {} under {}",
+                        "{:?} returns {:?}, leaves {} and reports {:?} to the eviction callback under {:?}{}, but returns {:?}, leaves {} and reports {:?} under {}",
                         op,
                         r.ret,
                         r.post.as_ref().map(|s| crate::oracle::show(cfg, s)).unwrap_or_default(),
+                        r.cb_log,
                         cfg.hasher,
                         if cfg.mixed_hashers { "(mixed per list)" } else { "" },
                         o.ret,
                         o.post.as_ref().map(|s| crate::oracle::show(cfg, s)).unwrap_or_default(),
+                        o.cb_log,
                         name
                     ),
                 ));
